@@ -114,8 +114,12 @@ func (x *fpsX) expr(e ast.Expr) string {
 			return "(has_prefix " + x.expr(v.Args[0]) + " " + x.expr(v.Args[1]) + ")"
 		case "strings.HasSuffix":
 			return "(has_suffix " + x.expr(v.Args[0]) + " " + x.expr(v.Args[1]) + ")"
-		case "int64", "int", "uint32", "uint64", "int32":
+		case "int64", "int", "uint32", "uint64", "int32", "rune":
 			return x.expr(v.Args[0])
+		case "byte", "uint8":
+			return "(Z.modulo " + x.expr(v.Args[0]) + " 256)"
+		case "uint16":
+			return "(Z.modulo " + x.expr(v.Args[0]) + " 65536)"
 		}
 		// string-valued library calls (member-name normalisation in lib/signdeb): mapped to the Gallina functions of fpsGoStrings
 		if coq, ok := fpsStrCalls[fn]; ok && len(v.Args) == coq.arity {
@@ -143,6 +147,14 @@ func (x *fpsX) expr(e ast.Expr) string {
 			return "(Z.quot " + a + " " + b + ")"
 		case token.REM:
 			return "(Z.rem " + a + " " + b + ")"
+		case token.SHR:
+			return "(Z.shiftr " + a + " " + b + ")"
+		case token.SHL:
+			return "(Z.shiftl " + a + " " + b + ")"
+		case token.AND:
+			return "(Z.land " + a + " " + b + ")"
+		case token.OR:
+			return "(Z.lor " + a + " " + b + ")"
 		case token.LAND:
 			return "(" + a + " && " + b + ")"
 		case token.LOR:
@@ -736,6 +748,201 @@ func (o *out) fpsCtlExts() {
 		strings.Join(items, "; "), d)
 }
 
+// ---- text encoding step: which bytes toUtf16 / writeUtf16 emit for ONE rune of the UTF-8 text.
+// Hand models of the two standard-library pieces the unchanged code is made of (unicode/utf16.Encode for one rune,
+// encoding/binary.Write of a []uint16 in either byte order); they are inside the correspondence check (text cases).
+const fpsGoUtf16 = `(* ---- unicode/utf16.Encode (one rune) and encoding/binary byte orders for uint16 (hand models of the Go library) *)
+Definition go_utf16_encode (c : Z) : list Z :=
+  if ((0 <=? c) && (c <? 55296)) || ((57344 <=? c) && (c <? 65536)) then [c]
+  else if (65536 <=? c) && (c <=? 1114111) then
+    [55296 + ((c - 65536) / 1024) mod 1024; 56320 + (c - 65536) mod 1024]
+  else [65533].
+Definition go_le16 (u : Z) : list Z := [u mod 256; u / 256].
+Definition go_be16 (u : Z) : list Z := [u / 256; u mod 256].
+
+`
+
+// statements of a per-rune loop body -> the list of bytes appended to buf for this rune
+func (x *fpsX) w16Stmts(ss []ast.Stmt, buf string) string {
+	if len(ss) == 0 {
+		return "[]"
+	}
+	rest := ss[1:]
+	switch s := ss[0].(type) {
+	case *ast.BranchStmt:
+		if s.Tok == token.CONTINUE && s.Label == nil {
+			return "[]"
+		}
+	case *ast.BlockStmt:
+		return x.w16Stmts(append(append([]ast.Stmt{}, s.List...), rest...), buf)
+	case *ast.IfStmt:
+		if s.Init != nil {
+			return x.fail("if with init statement in the per-rune loop")
+		}
+		c := x.expr(s.Cond)
+		a := x.w16Stmts(append(append([]ast.Stmt{}, s.Body.List...), rest...), buf)
+		var els []ast.Stmt
+		if s.Else != nil {
+			els = []ast.Stmt{s.Else}
+		}
+		b := x.w16Stmts(append(els, rest...), buf)
+		return "(if " + c + " then " + a + " else " + b + ")"
+	case *ast.AssignStmt:
+		if len(s.Lhs) != 1 || len(s.Rhs) != 1 {
+			break
+		}
+		lhs := x.pr(s.Lhs[0])
+		if call, ok := s.Rhs[0].(*ast.CallExpr); ok && x.pr(call.Fun) == "append" {
+			if lhs != buf || len(call.Args) < 1 || x.pr(call.Args[0]) != buf || call.Ellipsis != token.NoPos || s.Tok != token.ASSIGN {
+				return x.fail("append that is not `%s = append(%s, bytes...)`", buf, buf)
+			}
+			var parts []string
+			for _, a := range call.Args[1:] {
+				parts = append(parts, x.expr(a))
+			}
+			return "([" + strings.Join(parts, "; ") + "] ++ " + x.w16Stmts(rest, buf) + ")"
+		}
+		if _, ok := s.Lhs[0].(*ast.Ident); !ok || lhs == buf {
+			break
+		}
+		var rhs string
+		ops := map[token.Token]token.Token{token.ADD_ASSIGN: token.ADD, token.SUB_ASSIGN: token.SUB, token.SHR_ASSIGN: token.SHR,
+			token.SHL_ASSIGN: token.SHL, token.AND_ASSIGN: token.AND, token.OR_ASSIGN: token.OR}
+		if s.Tok == token.DEFINE || s.Tok == token.ASSIGN {
+			rhs = x.expr(s.Rhs[0])
+		} else if op, ok := ops[s.Tok]; ok {
+			rhs = x.expr(&ast.BinaryExpr{X: s.Lhs[0], Op: op, Y: s.Rhs[0]})
+		} else {
+			break
+		}
+		v, ok := x.leaves[lhs]
+		if !ok {
+			v = "v_" + lhs
+			x.leaves[lhs] = v
+		}
+		return "(let " + v + " := " + rhs + " in " + x.w16Stmts(rest, buf) + ")"
+	}
+	return x.fail("unsupported statement in the per-rune loop: %s", strings.Join(strings.Fields(printNode(x.p.fset, ss[0])), " "))
+}
+
+// fpsW16 emits `coq (r : Z) : list Z`: the bytes fn emits for one rune r of its string argument (the non-UTF-16 path), and for
+// writeUtf16 also what the isUtf16 path writes. Two shapes are understood: utf16.Encode([]rune(x)) + binary.Write(.., order, runes),
+// and a `for _, r := range x` loop that appends byte expressions to a buffer (translated statement by statement).
+func (o *out) fpsW16(dir, fn, coq, passCoq string) {
+	p, fd := findFunc(dir, "", fn)
+	if fd == nil {
+		o.brokenDef(coq, "function "+dir+":"+fn+" not found")
+		return
+	}
+	x := &fpsX{p: p, dir: dir, leaves: map[string]string{}, strs: map[string]bool{}}
+	arg := "x"
+	if len(fd.Type.Params.List) > 0 && len(fd.Type.Params.List[0].Names) == 1 {
+		arg = fd.Type.Params.List[0].Names[0].Name
+		if len(fd.Type.Params.List) > 1 && fn == "writeUtf16" { // (d io.Writer, x string, isUtf16 bool)
+			arg = fd.Type.Params.List[1].Names[0].Name
+		}
+	}
+	var body []ast.Stmt
+	passSeen := false
+	for _, st := range fd.Body.List {
+		if is, ok := st.(*ast.IfStmt); ok && passCoq != "" && x.pr(is.Cond) == "isUtf16" && is.Else == nil && !passSeen {
+			// the pass-through path: what is written when the text already is UTF-16
+			passSeen = true
+			var written ast.Expr
+			ast.Inspect(is.Body, func(n ast.Node) bool {
+				if c, ok := n.(*ast.CallExpr); ok && strings.HasSuffix(x.pr(c.Fun), ".Write") && len(c.Args) == 1 && written == nil {
+					written = c.Args[0]
+				}
+				return true
+			})
+			last, _ := is.Body.List[len(is.Body.List)-1].(*ast.ReturnStmt)
+			if written == nil || last == nil {
+				o.brokenDef(passCoq, "isUtf16 branch does not write and return")
+			} else {
+				xp := &fpsX{p: p, dir: dir, leaves: map[string]string{"[]byte(" + arg + ")": "x", arg: "x"}, strs: map[string]bool{arg: true}}
+				c := xp.expr(written)
+				if xp.err != nil {
+					o.brokenDef(passCoq, xp.err.Error())
+				} else {
+					o.f("Definition %s (x : list Z) : list Z :=\n  %s.\n(* from %s:%s : bytes written when isUtf16 : %s *)\n", passCoq, c, dir, fn, x.pr(written))
+				}
+			}
+			continue
+		}
+		body = append(body, st)
+	}
+	if passCoq != "" && !passSeen {
+		o.brokenDef(passCoq, "no `if isUtf16 {..}` statement at the top level of "+fn)
+	}
+	// shape A
+	var encVar, order, written string
+	var loop *ast.RangeStmt
+	for _, st := range body {
+		ast.Inspect(st, func(n ast.Node) bool {
+			switch v := n.(type) {
+			case *ast.AssignStmt:
+				if len(v.Lhs) == 1 && len(v.Rhs) == 1 && x.pr(v.Rhs[0]) == "utf16.Encode([]rune("+arg+"))" {
+					encVar = x.pr(v.Lhs[0])
+				}
+			case *ast.CallExpr:
+				if x.pr(v.Fun) == "binary.Write" && len(v.Args) == 3 {
+					order, written = x.pr(v.Args[1]), x.pr(v.Args[2])
+				}
+			case *ast.RangeStmt:
+				if loop == nil {
+					loop = v
+				}
+			}
+			return true
+		})
+	}
+	src := strings.ReplaceAll(strings.Join(strings.Fields(printNode(p.fset, fd.Body)), " "), "*)", "* )")
+	switch {
+	case encVar != "" && written == encVar && loop == nil && (order == "binary.LittleEndian" || order == "binary.BigEndian"):
+		ord := map[string]string{"binary.LittleEndian": "go_le16", "binary.BigEndian": "go_be16"}[order]
+		o.f("Definition %s (r : Z) : list Z :=\n  flat_map %s (go_utf16_encode r).\n(* from %s:%s : utf16.Encode([]rune(%s)) written with binary.Write in %s *)\n", coq, ord, dir, fn, arg, order)
+	case loop != nil && encVar == "" && order == "":
+		rx := x.pr(loop.X)
+		val, _ := loop.Value.(*ast.Ident)
+		if (rx != arg && rx != "[]rune("+arg+")") || val == nil || (loop.Key != nil && x.pr(loop.Key) != "_") {
+			o.brokenDef(coq, "per-rune loop of unexpected form: "+src)
+			return
+		}
+		buf := ""
+		ast.Inspect(loop.Body, func(n ast.Node) bool {
+			if as, ok := n.(*ast.AssignStmt); ok && buf == "" && len(as.Rhs) == 1 {
+				if c, ok := as.Rhs[0].(*ast.CallExpr); ok && x.pr(c.Fun) == "append" {
+					buf = x.pr(as.Lhs[0])
+				}
+			}
+			return true
+		})
+		// the loop's buffer must be what is written afterwards, whole
+		wroteBuf := false
+		for _, st := range body {
+			ast.Inspect(st, func(n ast.Node) bool {
+				if c, ok := n.(*ast.CallExpr); ok && (strings.HasSuffix(x.pr(c.Fun), ".Write") || x.pr(c.Fun) == "string") && len(c.Args) == 1 && x.pr(c.Args[0]) == buf {
+					wroteBuf = true
+				}
+				return true
+			})
+		}
+		if buf == "" || !wroteBuf {
+			o.brokenDef(coq, "per-rune loop whose buffer is not written whole: "+src)
+			return
+		}
+		x.leaves[val.Name] = "r"
+		c := x.w16Stmts(loop.Body.List, buf)
+		if x.err != nil {
+			o.brokenDef(coq, x.err.Error())
+			return
+		}
+		o.f("Definition %s (r : Z) : list Z :=\n  %s.\n(* from %s:%s : body of the per-rune loop : %s *)\n", coq, c, dir, fn, src)
+	default:
+		o.brokenDef(coq, "text encoding step of unknown shape: "+src)
+	}
+}
+
 func init() {
 	generators["FmtPS_gen"] = func(o *out) {
 		const a = "lib/authenticode"
@@ -744,6 +951,7 @@ func init() {
 		o.f("Fixpoint has_prefix (l p : list Z) {struct p} : bool :=\n  match p, l with\n  | [], _ => true\n  | x :: p', y :: l' => (x =? y) && has_prefix l' p'\n  | _ :: _, [] => false\n  end.\n")
 		o.f("Definition has_suffix (l s : list Z) : bool := has_prefix (rev l) (rev s).\n\n")
 		o.f("%s", fpsGoStrings)
+		o.f("%s", fpsGoUtf16)
 		o.f("(* ---- PowerShell: lib/authenticode/powershell.go *)\n")
 		o.constString(a, "psBegin", "ps_begin")
 		o.constString(a, "psEnd", "ps_end")
@@ -824,6 +1032,10 @@ func init() {
 		w, f = fpsCond("for", "len(b64)", 0)
 		o.fpsEmit(mk("MakePatch", "PsDigest", "ps_mp_more", "(i b64_len : Z)", "bool", mpL), w, f)
 		o.callOrder(a, "PsDigest", "MakePatch", "ps_mp_calls", []string{"WriteString", "EncodeToString", "toUtf16", "Add"})
+		o.fpsW16(a, "writeUtf16", "ps_w16_rune", "ps_w16_pass")
+		o.fpsW16(a, "toUtf16", "ps_t16_rune", "")
+		// the digest loop hands every line (and the saved CRLF) to writeUtf16 with the detected flag, nothing else reaches the hash
+		o.callOrder(a, "", "DigestPowershell", "ps_dg_calls", []string{"detectUtf16", "readLine", "writeUtf16", "Write"})
 		for _, fn := range []string{"DigestPowershell", "detectUtf16", "VerifyPowershell", "readLine", "toUtf16", "writeUtf16", "fromUtf16", "GetSigStyle"} {
 			fingerprint(a, "", fn)
 		}
